@@ -18,7 +18,7 @@ def run(ctx):
     P = ctx.program()
     R = CountResolver(P)
     seen = lib_guards.analyse(ctx, P, resolver=R)
-    lib_guards.presence(ctx, seen)
+    lib_guards.presence(ctx, seen, P=P)
     lib_module.narrowing(ctx, P)
     lib_gate.gate(ctx, P)
     E = lib_err.discipline(ctx, P, LIB_TUS + ["module"])
